@@ -198,6 +198,13 @@ def gen_outopt():
         ops = op_list(body, name)
         facts[name] = ops
         out += coq_ops(name, ops)
+    cd = facts["ops_writeCDATA"]
+    if cd == ["OPte", "OSetPreserve true", "OIndent", "OCdataChars"]:
+        out += "Definition cdata_sets_prevtext : bool := false.\n"
+    elif cd == ["OPte", "OSetPreserve true", "OIndent", "OCdataChars", "OSetPrevText true"]:
+        out += "Definition cdata_sets_prevtext : bool := true.    (* writeCDATA repaired (K-C08-1) *)\n"
+    else:
+        raise AnchorError("writeCDATA has neither the original nor the repaired call order: " + " ".join(cd))
     hdr = function_body(fx, r"writeXMLHeader\(\)\s*\{", "FormatterToXMLUnicode::writeXMLHeader")
     h = _sq(hdr)
     need(re.escape("if(m_standalone.empty()==false){m_writer.write(m_constants.s_xmlHeaderStandaloneString,m_constants.s_xmlHeaderStandaloneStringLength);m_writer.write(m_standalone);}"),
